@@ -1229,57 +1229,63 @@ def main(R):
     nscenes = 40 if R.quick else 300
     kinds = sorted(set(KIND_MIX))
     scenes = {k: [(lazy_scene(R.rng) if k == "lazy" else gen_scene(R.rng, k)) for _ in range(nscenes)] for k in kinds}
-    cases = []
     per_point = 1 if R.quick else 8
-    for pi_, pt in enumerate(pts):
-        for j in range(per_point):
-            kindname = R.rng.choice(KIND_MIX)
-            sc = R.rng.choice(scenes[kindname])
-            cases.append(make_case(R.rng, pt, sc, kindname, R.rng.randrange(0, 1 << 16)))
-    # LazyStackedTensorDict.apply_ (a function of its own): a small sub-lattice
-    for (dflt, fe, con, prop) in itertools.product([False, True], FE, [False, True], [False, True]):
-        for _ in range(4 if R.quick else 30):
-            pt = (True, False, dflt, fe, con, "plain", False, "absent", "absent", prop, 0, "default")
-            c = make_case(R.rng, pt, R.rng.choice(scenes["lazy"]), "lazy", 0)
-            c["front"] = "apply_"
-            c["opts"]["checked"] = False
-            cases.append(c)
     R.extra["lattice_points"] = len(pts)
-    R.extra["generate_s"] = round(time.time() - t00, 1)
     nproc = min(15, os.cpu_count() or 2)
     ctx = mp.get_context("fork")
-    lines_all = [model_line(c, c["perm"]) for c in cases]
-    idx = [i for i, l in enumerate(lines_all) if l is not None]
-    t1 = time.time()
-    mres_l = R.model([lines_all[i] for i in idx], shards=14) if ok else []
-    mres = [None] * len(cases)
-    if ok:
-        for i, m in zip(idx, mres_l):
-            mres[i] = m
-    R.extra["model_s"] = round(time.time() - t1, 1)
-    t2 = time.time()
+    tim = {"generate_s": time.time() - t00, "model_s": 0.0, "impl_s": 0.0, "collect_s": 0.0}
     with ctx.Pool(nproc) as pool:
-        results = pool.map(_work, chunks(list(zip(cases, mres)), nproc * 12), chunksize=1)
-    R.extra["impl_s"] = round(time.time() - t2, 1)
-    flat = [x for part in results for x in part]
-    t3 = time.time()
-    for ci, ((fails, mism, cnt), case) in enumerate(zip(flat, cases)):
-        key = json.dumps(case, sort_keys=True, default=str)
-        R.case(hash(key), nontrivial=bool(case["self"][3]),
-               sample={"front": case["front"], "opts": case["opts"], "threads": case["threads"], "kind": case["kind"]} if ci % 9973 == 0 else None)
-        R.count("front:" + case["front"])
-        R.count("kind:" + case["kind"])
-        R.count(f"threads:{case['threads']}")
-        for k, v in cnt.items():
-            R.count(k, v)
-        R.traces += 1
-        for (label, c, detail, sig) in fails:
-            R.oracle_fail(label, c, detail, sig)
-        for (label, c, io, mo) in mism:
-            R.mismatch(label, c, io, mo)
+        for rep in range(per_point + 1):
+            # one pass over the whole lattice per batch (bounded memory); the last batch is the lazy apply_ sub-lattice
+            t0 = time.time()
+            cases = []
+            if rep < per_point:
+                for pt in pts:
+                    kindname = R.rng.choice(KIND_MIX)
+                    sc = R.rng.choice(scenes[kindname])
+                    cases.append(make_case(R.rng, pt, sc, kindname, R.rng.randrange(0, 1 << 16)))
+            else:
+                # LazyStackedTensorDict.apply_ (a function of its own): a small sub-lattice
+                for (dflt, fe, con, prop) in itertools.product([False, True], FE, [False, True], [False, True]):
+                    for _ in range(4 if R.quick else 30):
+                        pt = (True, False, dflt, fe, con, "plain", False, "absent", "absent", prop, 0, "default")
+                        c = make_case(R.rng, pt, R.rng.choice(scenes["lazy"]), "lazy", 0)
+                        c["front"] = "apply_"
+                        c["opts"]["checked"] = False
+                        cases.append(c)
+            tim["generate_s"] += time.time() - t0
+            t1 = time.time()
+            lines_all = [model_line(c, c["perm"]) for c in cases]
+            idx = [i for i, l in enumerate(lines_all) if l is not None]
+            mres_l = R.model([lines_all[i] for i in idx], shards=14) if (ok and idx) else []
+            mres = [None] * len(cases)
+            for i, m in zip(idx, mres_l):
+                mres[i] = m
+            tim["model_s"] += time.time() - t1
+            t2 = time.time()
+            results = pool.map(_work, chunks(list(zip(cases, mres)), nproc * 12), chunksize=1)
+            tim["impl_s"] += time.time() - t2
+            t3 = time.time()
+            flat = [x for part in results for x in part]
+            for ci, ((fails, mism, cnt), case) in enumerate(zip(flat, cases)):
+                key = json.dumps(case, sort_keys=True, default=str)
+                R.case(hash(key), nontrivial=bool(case["self"][3]),
+                       sample={"front": case["front"], "opts": case["opts"], "threads": case["threads"], "kind": case["kind"]} if ci % 9973 == 0 else None)
+                R.count("front:" + case["front"])
+                R.count("kind:" + case["kind"])
+                R.count(f"threads:{case['threads']}")
+                for k, v in cnt.items():
+                    R.count(k, v)
+                R.traces += 1
+                for (label, c, detail, sig) in fails:
+                    R.oracle_fail(label, c, detail, sig)
+                for (label, c, io, mo) in mism:
+                    R.mismatch(label, c, io, mo)
+            tim["collect_s"] += time.time() - t3
+    for k, v in tim.items():
+        R.extra[k] = round(v, 1)
     R.exhaustive = False            # the option lattice is enumerated completely, the operand structures are sampled
     R.extra["option_lattice_enumerated_completely"] = True
-    R.extra["collect_s"] = round(time.time() - t3, 1)
 
 
 def replay(body):
